@@ -434,8 +434,16 @@ def _receive(u: U, mod, client):
                 "a CLOSE message sets closing and records the peer's code")
         u.check(f"C13.{which}.receive.autoclose", len(calls) == (0 if waiting_seen.get("closed_by_other") else 1),
                 "autoclose answers with our close() - unless another task is already closing the session")
-    if not out.ok and isinstance(out.exc, (asyncio.CancelledError, asyncio.TimeoutError)) and client:
-        u.check("C13.client.receive.cancel_is_1006", fs["_close_code"] == ABNORMAL, "a cancelled / timed out read reports 1006")
+    if not out.ok and isinstance(out.exc, (asyncio.CancelledError, asyncio.TimeoutError)):
+        # From the property: a close code is reported for an END of the session (the peer's code after a handshake,
+        # 1006 for an abnormal end).  Giving up on one read - receive(timeout=...) expiring, the reading task being
+        # cancelled - ends nothing: the session stays open and usable, so no code may be recorded; close() relies on
+        # "a recorded code means the peer's CLOSE has arrived or the session is over" to skip its wait.
+        # (An earlier version of this contract demanded 1006 here - it had been written from the code.)
+        u.check(f"C13.{which}.receive.giving_up_a_read_is_not_an_end",
+                Implies(Not(tbool(fs["_closed"])), fs["_close_code"] is None if not closing else True),
+                "receive() left by TimeoutError / CancelledError on an open session records no close code",
+                known=[("F13e", True)], witness={"exit": type(out.exc).__name__, "client": client})
     if out.ok and isinstance(out.value, w.M.WSMessageError if hasattr(w.M, "WSMessageError") else ()):
         u.check(f"C13.{which}.receive.error_closes", len(calls) == 1, "an error from the reader closes the session")
 
